@@ -86,6 +86,12 @@ def run_history_shard(mod, shard):
         try:
             mod.drive(data.draw, h, cfg)
             counters.update(h.stats)
+            if hasattr(mod, 'adopt'):
+                for f in h.failures:
+                    if f['clause'].split('.')[0] not in mod.CLAUSES:
+                        nc = mod.adopt(h, f)
+                        if nc:
+                            f['clause'] = nc
             mine = [f for f in h.failures if f['clause'].split('.')[0] in mod.CLAUSES]
             for f in h.failures:
                 if f['clause'].split('.')[0] not in mod.CLAUSES:
@@ -232,7 +238,7 @@ def install(g, quick, thorough):
         return run_history_shard(sys.modules[name], shard)
 
     def replay(case):
-        return run_scenario(case, clauses=g['CLAUSES'])[0]
+        return run_scenario(case, clauses=g['CLAUSES'], adopt=g.get('adopt'))[0]
 
     g.setdefault('plan', plan)
     g.setdefault('run_shard', run_shard)
